@@ -208,8 +208,17 @@ def part_uhtr(g, idx, res, big):
     if list(gf.log_time) != list(lt) or gf.bore_locations != coords:
         res["viol"].append({"mechanism": "gfunction-object-does-not-carry-inputs", "message": "log_time / bore_locations differ from the arguments", "case": case})
     if err > tol:
-        # classifier: pygfunction's 'equivalent' solver clusters boreholes; on irregular (non-lattice) fields this costs up to a few 1e-4
-        mech = "uhtr-equivalent-solver-error-on-irregular-field" if (name.startswith("irregular") and err < 1e-3) else "uhtr-differs-from-finite-line-source"
+        # classifier of the known finding: the deviation comes from pygfunction's 'equivalent' solver (borehole clustering), i.e. the SAME
+        # call with solver="similarities" reproduces the analytical sum (<= 2e-5) while the tool's default does not, and it is < 1e-3
+        mech = "uhtr-differs-from-finite-line-source"
+        if len(coords) > 1 and err < 1e-3:
+            with warnings.catch_warnings():
+                warnings.simplefilter("ignore")
+                gs = calc_g_func_for_multiple_lengths(5.0, [H], bh.r_b, bh.D, 0.3, pt, lt, coords, fluid, pipe, grout, soil, boundary="UHTR", solver="similarities")
+            err_s = float(np.max(np.abs(np.asarray(gs.g_lts[H], dtype=float) - ref) / np.maximum(1.0, np.abs(ref))))
+            case["similarities_solver_rel_dev"] = err_s
+            if err_s <= 2e-5:
+                mech = "uhtr-equivalent-solver-error-on-irregular-field"
         res["viol"].append({"mechanism": mech, "message": f"{name} H={H}: max rel |dg| = {err:.3g} > {tol}", "case": case})
     res["uhtr_checked"] += 1
     res["nontrivial"].append([name, H, round(bh.r_b, 5)])
